@@ -5,19 +5,32 @@ the response a correct decoder must produce
 
 Written from the wire formats (vanilla SWAT4 / AdminMod / GS1 mod), independently of the decoder
 model; shares with `Model/GS1.lean` only the data types (`Response`, `Ver`), the byte constants,
-the latin-1 conversion and the association-list map (`insertKV`).  `encodeStatus` *defines*
-what a well-formed response stream is (C08 quantifies over its outputs); `toResponse` defines
-"decoded faithfully".
+the latin-1 conversion and the association-list map (`insertKV`).  `encodeWire` (over any wire
+order `WireOf` of a well-formed status; `encodeStatus` = the servers' own order) *defines* what a
+well-formed response stream is (C08 quantifies over its outputs); `toResponse` defines "decoded
+faithfully": in particular the players, who carry explicit indexes (gaps, any listing order, their
+pairs anywhere in the stream), come out in ascending order of index (`sortById`).
 -/
 namespace Swat4.GS1Spec
 open Swat4 Swat4.GS1
 
-/-- abstract server status: server fields, per-player key/value lists (player `i` is the `i`-th
-element), objectives as (name, status) -/
+/-- abstract server status: server fields, the players — each with its explicit index (the `N` of
+`key_N` on the wire; indexes need not be contiguous nor listed in ascending order) and its key/value
+list —, objectives as (name, status) -/
 structure Status where
   fields : List (Bytes × Bytes)
-  players : List (List (Bytes × Bytes))
+  players : List (Nat × List (Bytes × Bytes))
   objectives : List (Bytes × Bytes)
+  deriving DecidableEq, Repr
+
+/-- one `\name\value` pair of a status on the wire -/
+inductive Item where
+  /-- server field `\k\v` -/
+  | field (k v : Bytes)
+  /-- key `k` of the player with index `id`: `\k_id\v` -/
+  | player (id : Nat) (k v : Bytes)
+  /-- objective: `\obj_name\status` -/
+  | objective (name status : Bytes)
   deriving DecidableEq, Repr
 
 /-- the dialects seen in the wild (and in the repository's captured fixtures) -/
@@ -75,17 +88,79 @@ def kObjBare : Bytes := [0x6f, 0x62, 0x6a]
 /-- wire name of key `k` of player `i`: `k_i` -/
 def playerKey (k : Bytes) (i : Nat) : Bytes := k ++ usc :: decimal i
 
-def playerFlat (i : Nat) (kvs : List (Bytes × Bytes)) : List Bytes :=
-  kvs.flatMap fun kv => [playerKey kv.1 i, kv.2]
+/-- the name of a pair on the wire -/
+def Item.name : Item → Bytes
+  | .field k _ => k
+  | .player id k _ => playerKey k id
+  | .objective n _ => kObj ++ n
 
-def playersFlat : Nat → List (List (Bytes × Bytes)) → List Bytes
-  | _, [] => []
-  | i, p :: ps => playerFlat i p ++ playersFlat (i + 1) ps
+def Item.value : Item → Bytes
+  | .field _ v => v
+  | .player _ _ v => v
+  | .objective _ v => v
 
-/-- the field sequence `n₁,v₁,n₂,v₂,…`: server fields, the players one after another, the objectives -/
-def flat (s : Status) : List Bytes :=
-  (s.fields.flatMap fun kv => [kv.1, kv.2]) ++ playersFlat 0 s.players ++
-    (s.objectives.flatMap fun kv => [kObj ++ kv.1, kv.2])
+/-- the pairs of a status in the order the game servers send them: server fields, the players one
+after another in the listed order, the objectives -/
+def items (s : Status) : List Item :=
+  (s.fields.map fun kv => Item.field kv.1 kv.2) ++
+    (s.players.flatMap fun p => p.2.map fun kv => Item.player p.1 kv.1 kv.2) ++
+    (s.objectives.map fun kv => Item.objective kv.1 kv.2)
+
+/-- the field sequence `n₁,v₁,n₂,v₂,…` of a sequence of pairs -/
+def flatItems (w : List Item) : List Bytes := w.flatMap fun it => [it.name, it.value]
+
+/-- the field sequence of a status in the servers' own order -/
+def flat (s : Status) : List Bytes := flatItems (items s)
+
+/-! ### wire orders
+
+The decoder classifies every pair by its name alone, so a status may be sent with its pairs in any
+interleaving: `WireOf s w` says that the pair sequence `w` carries exactly the content of `s` — its
+server fields and its objectives in their order, and for every player index exactly that player's
+pairs in their order — with the pairs of different players, the server fields and the objectives
+interleaved in any way whatsoever (players in any order of index, a player's pairs scattered over
+the stream). -/
+
+/-- the server fields among the pairs, in wire order -/
+def fieldsOf (w : List Item) : List (Bytes × Bytes) :=
+  w.filterMap fun
+    | .field k v => some (k, v)
+    | _ => none
+
+/-- the objectives among the pairs, in wire order -/
+def objectivesOf (w : List Item) : List (Bytes × Bytes) :=
+  w.filterMap fun
+    | .objective n v => some (n, v)
+    | _ => none
+
+/-- the pairs of player `id`, in wire order -/
+def pairsOf (id : Nat) (w : List Item) : List (Bytes × Bytes) :=
+  w.filterMap fun
+    | .player i k v => if i = id then some (k, v) else none
+    | _ => none
+
+/-- the key/value list of the player with index `id` (the first one listed; `[]` when there is none) -/
+def pairsFor : List (Nat × List (Bytes × Bytes)) → Nat → List (Bytes × Bytes)
+  | [], _ => []
+  | p :: t, id => if p.1 = id then p.2 else pairsFor t id
+
+/-- `w` is a wire order of status `s` -/
+structure WireOf (s : Status) (w : List Item) : Prop where
+  fields : fieldsOf w = s.fields
+  objectives : objectivesOf w = s.objectives
+  players : ∀ id, pairsOf id w = pairsFor s.players id
+
+/-- the player indexes that occur among the pairs -/
+def idsOf (w : List Item) : List Nat :=
+  w.filterMap fun
+    | .player i _ _ => some i
+    | _ => none
+
+/-- executable form of `WireOf` (used by the driver; `wireOfB_iff` in `Lemmas/GS1Players.lean`): the
+quantifier ranges over the indexes that occur -/
+def wireOfB (s : Status) (w : List Item) : Bool :=
+  fieldsOf w == s.fields && objectivesOf w == s.objectives &&
+    ((s.players.map (·.1)) ++ idsOf w).all fun id => pairsOf id w == pairsFor s.players id
 
 /-- `\f₁\f₂…` -/
 def body (fs : List Bytes) : Bytes := fs.flatMap fun f => bsl :: f
@@ -113,14 +188,20 @@ def fragmentsFrom (d : Dialect) (n : Nat) : Nat → List (List Bytes) → List B
   | _, [] => []
   | i, ch :: rest => fragment d n i ch :: fragmentsFrom d n (i + 1) rest
 
-/-- the datagrams a server of dialect `d` sends for status `s`, cut before the field positions `cuts` -/
-def encodeStatus (d : Dialect) (s : Status) (cuts : List Nat) : List Bytes :=
+/-- the datagrams a server of dialect `d` sends for the field sequence `fl`, cut before the field positions `cuts` -/
+def encodeFlat (d : Dialect) (fl : List Bytes) (cuts : List Nat) : List Bytes :=
   match d with
-  | .vanilla => [body (flat s) ++ FINAL ++ sfxVanilla]
-  | .vanillaq => [body (flat s) ++ bsl :: kQueryid ++ bsl :: vGs1 ++ FINAL]
+  | .vanilla => [body fl ++ FINAL ++ sfxVanilla]
+  | .vanillaq => [body fl ++ bsl :: kQueryid ++ bsl :: vGs1 ++ FINAL]
   | _ =>
-    let chs := chunks (flat s) cuts
+    let chs := chunks fl cuts
     fragmentsFrom d chs.length 0 chs
+
+/-- the datagrams a server of dialect `d` sends for the pair sequence `w` -/
+def encodeWire (d : Dialect) (w : List Item) (cuts : List Nat) : List Bytes := encodeFlat d (flatItems w) cuts
+
+/-- the datagrams a server of dialect `d` sends for status `s` in the servers' own order -/
+def encodeStatus (d : Dialect) (s : Status) (cuts : List Nat) : List Bytes := encodeWire d (items s) cuts
 
 /-- fields the dialect's own framing adds to the field map (AppendixC: vanilla keeps `final` and
 `queryid`; AdminMod's final fragment keeps `queryid`) -/
@@ -134,11 +215,22 @@ def framingFields : Dialect → List (Bytes × Bytes)
 def mkMap (kvs : List (Bytes × Bytes)) : List (Bytes × Bytes) :=
   kvs.foldl (fun m kv => insertKV kv.1 (latin1 kv.2) m) []
 
+/-- insertion into a list ascending by index -/
+def insertById {α : Type} (p : Nat × α) : List (Nat × α) → List (Nat × α)
+  | [] => [p]
+  | q :: t => if p.1 ≤ q.1 then p :: q :: t else q :: insertById p t
+
+/-- the players in ascending order of index (insertion sort; characterised by `sortById_perm` and
+`sortById_sorted` in `Lemmas/GS1Players.lean`) -/
+def sortById {α : Type} (l : List (Nat × α)) : List (Nat × α) := l.foldr insertById []
+
 /-- **the faithful decoding** of status `s` sent in dialect `d`: server fields (plus the dialect's
-framing fields), players by ascending index with their keys, objectives in order (raw bytes),
+framing fields), the players in ascending order of index — whatever the order in which they are
+listed or sent, gaps in the indexes closed up — each with its keys, objectives in order (raw bytes),
 text latin-1 → UTF-8, dialect tag -/
 def toResponse (d : Dialect) (s : Status) : Response :=
-  { fields := mkMap (s.fields ++ framingFields d), players := s.players.map mkMap, objectives := s.objectives, version := d.ver }
+  { fields := mkMap (s.fields ++ framingFields d), players := (sortById s.players).map fun p => mkMap p.2,
+    objectives := s.objectives, version := d.ver }
 
 abbrev noBsl (b : Bytes) : Prop := bsl ∉ b
 abbrev noUsc (b : Bytes) : Prop := usc ∉ b
@@ -147,17 +239,20 @@ abbrev noUsc (b : Bytes) : Prop := usc ∉ b
 structure WfStatus (s : Status) : Prop where
   /-- no backslash in any name, key or value -/
   fields_bsl : ∀ kv ∈ s.fields, noBsl kv.1 ∧ noBsl kv.2
-  players_bsl : ∀ p ∈ s.players, ∀ kv ∈ p, noBsl kv.1 ∧ noBsl kv.2
+  players_bsl : ∀ p ∈ s.players, ∀ kv ∈ p.2, noBsl kv.1 ∧ noBsl kv.2
   objectives_bsl : ∀ kv ∈ s.objectives, noBsl kv.1 ∧ noBsl kv.2
   /-- server field names: non-empty, no underscore, none of the framing words -/
   field_names : ∀ kv ∈ s.fields, kv.1 ≠ [] ∧ noUsc kv.1 ∧ kv.1 ≠ kQueryid ∧ kv.1 ≠ kFinal ∧ kv.1 ≠ kStatusresponse
   /-- player keys: no underscore, not the word `obj`; every player has at least one key -/
-  player_keys : ∀ p ∈ s.players, p ≠ [] ∧ ∀ kv ∈ p, noUsc kv.1 ∧ kv.1 ≠ kObjBare
+  player_keys : ∀ p ∈ s.players, p.2 ≠ [] ∧ ∀ kv ∈ p.2, noUsc kv.1 ∧ kv.1 ≠ kObjBare
+  /-- player indexes: pairwise different (gaps and any listing order allowed), within Go's `int` -/
+  player_ids : (s.players.map (·.1)).Nodup
+  player_ids_int : ∀ p ∈ s.players, p.1 < 9223372036854775808
   /-- objective names are non-empty -/
   objective_names : ∀ kv ∈ s.objectives, kv.1 ≠ []
   /-- no value is the word `queryid` (an AdminMod fragment cut between a name and its value would
   lose it) or `statusresponse` (a fragment starting with it would be taken for AdminMod) -/
-  values : ∀ v ∈ (s.fields.map (·.2)) ++ (s.players.flatMap fun p => p.map (·.2)) ++ s.objectives.map (·.2),
+  values : ∀ v ∈ (s.fields.map (·.2)) ++ (s.players.flatMap fun p => p.2.map (·.2)) ++ s.objectives.map (·.2),
     v ≠ kQueryid ∧ v ≠ kStatusresponse
 
 /-- cuts on a field sequence of length `len` as the generators draw them: strictly increasing,
